@@ -229,9 +229,27 @@ def check_then_error(rec, case):
         rec.fail(dict(case, src=macro_src + follow), f"error-after-macro-differs:{b.kind}->{a.kind}", {"with_macro": [str(x)[:160] for x in a.canon()], "with_plain_statements": [str(x)[:160] for x in b.canon()], "src": macro_src + follow})
 
 
+def check_blank_argument(rec, case):
+    """an argument is the text between two top-level commas: nothing or blanks there is no argument (an error, as
+    in an ordinary call); blanks before the closing parenthesis are not an argument"""
+    src = case["src"]
+    o = outcome(src, "exec")
+    rec.case(case, True, labels=("kind:blank-argument", f"expect:{case['expect']}"), key=src)
+    if case["expect"] == "error":
+        if o.kind != "error":
+            rec.fail(case, f"blank-macro-argument-not-rejected:{o.kind}", {"src": src, "got": [str(x)[:160] for x in o.canon()]})
+        return
+    calls = find_calls(o.tree, "call_macro") if o.kind == "tree" else []
+    got = [a.value for a in calls[0].args[1].elts] if len(calls) == 1 else None
+    if got != case["args"]:
+        rec.fail(case, "call-macro-args:trailing-blank", {"src": src, "expected": case["args"], "got": got})
+
+
 def check(rec, case):
     k = case["kind"]
-    if k == "then-error":
+    if k == "blank-argument":
+        check_blank_argument(rec, case)
+    elif k == "then-error":
         check_then_error(rec, case)
     elif k == "call":
         check_call_macro(rec, case)
@@ -257,6 +275,12 @@ def search(rec, ctx):
 
     def withm(rnd):
         check(rec, dict(xonsh.with_macro_case(rnd), kind="with"))
+
+    for b in ctx.shard(["", " ", "  ", "\t", "\n  ", " \n"]):
+        for tmpl in ("f!(a,{B},b)", "f!({B},a)", "x = g.h!(a b,{B}, c d)\n", "f!(a,{B},)", "f!({B},)", "f!((1, 2),{B},[3])"):
+            check(rec, {"kind": "blank-argument", "src": tmpl.replace("{B}", b), "expect": "error"})
+        for tmpl, args in (("f!(a,{B})", ["a"]), ("f!(a, b,{B})", ["a", " b"]), ("f!({B})", [])):
+            check(rec, {"kind": "blank-argument", "src": tmpl.replace("{B}", b), "expect": "args", "args": args})
 
     def then_error(rnd):
         r = rnd.random()
